@@ -430,11 +430,25 @@ func (d *Datastore) TransactionSet(ctx context.Context, transactionId string, tr
 		return nil, err
 	}
 
-	// Mark the transaction as successfully committed
-	transactionGuard.Success()
+	// Mark the transaction as successfully committed. A dry-run or a transaction that
+	// failed validation was not applied, no rollback timer is running for it, so it must
+	// not stay registered (the guard then cleans it up).
+	if !dryRun && !responseHasErrors(response) {
+		transactionGuard.Success()
+	}
 
 	log.Infof("Transaction: %s - transacted", transactionId)
 	return response, err
+}
+
+// responseHasErrors returns true if any intent of the response carries validation errors.
+func responseHasErrors(r *sdcpb.TransactionSetResponse) bool {
+	for _, i := range r.GetIntents() {
+		if len(i.GetErrors()) > 0 {
+			return true
+		}
+	}
+	return false
 }
 
 func cacheUpdateToSdcpbUpdate(lvs tree.LeafVariantSlice) ([]*sdcpb.Update, error) {
